@@ -22,7 +22,7 @@ for n in (1, 2, 3):
         continue
     try:
         for prop in [pid] + extra:
-            out = subprocess.run(["./check", prop, "--tier", "quick"], cwd="/verif", capture_output=True, text=True).stdout
+            out = subprocess.run(["./check", prop, "--tier", "quick"], cwd="/verif", capture_output=True, text=True, env=dict(__import__('os').environ, VERIF_EVIDENCE_DIR='/tmp/verif-mutant-evidence')).stdout
             lines = [l for l in out.strip().split("\n") if l.startswith(("VIOLATION", "PASS", "FAIL", "KNOWN"))]
             results[prop] = lines
             print("   ", prop, "|", " || ".join(l[:260] for l in lines))
